@@ -5,7 +5,7 @@
 (* after the last frame (CutBoundary) and inside the last frame (CutIn).      *)
 EXTENDS MC_WsReader, TLC, Json
 
-CONSTANTS Family     \* "framing" | "more" | "limit" | "sizes" | "seq" | "sim"
+CONSTANTS Family     \* "framing" | "more" | "limit" | "sizes" | "seq" | "header" | "bufsize" | "bufsizes" | "sim"
 
 VARIABLE hist        \* <<step records>>
 gvars == <<vars, hist>>
@@ -26,6 +26,8 @@ GenAlpha(r, L) ==
     [] Family = "sizes"   -> SizeAlpha(r, L)
     [] Family = "seq"     -> SeqAlpha(r, L)
     [] Family = "header"  -> McHeader(r, L)
+    [] Family = "bufsize" -> BufAlphaThin(r, bufsize)
+    [] Family = "bufsizes" -> BufAlpha(r, bufsize)
     [] Family = "sim"     -> SimAlpha(r, L)
 
 \* how the close frame of an outcome class is judged: "must" / "may" be written; code 0: not judged
@@ -69,6 +71,9 @@ SimNext ==
 
 CaseOf ==
   [ role |-> role, limit |-> limit, fam |-> Family,
+    \* the configured read buffer: a dimension of the case where the family has one (bufdim), otherwise the replayer
+    \* sweeps it on its own - the expectation below never depends on it
+    bufsize |-> bufsize, bufdim |-> Cardinality(BufSizes) > 1,
     steps |-> [i \in 1..Len(hist) |-> IF i = Len(hist) THEN hist[i] ELSE [hist[i] EXCEPT !.cut = {}]],   \* cuts: last frame only
     delivered |-> [i \in 1..Len(delivered) |->
                      [type |-> delivered[i].type, len |-> delivered[i].len,
